@@ -98,3 +98,27 @@ Definition mk_in (n : nat) (km : Q) (c : conv) (swk : Q) (vs : list varlist) (ts
 
 Definition mk_obs (e p : list (list Q)) (s : list Q) (h : Q) (q k : list (list Q)) : observed :=
   {| ob_e := e; ob_p := p; ob_sum := s; ob_head := h; ob_q := q; ob_k := k |}.
+
+(* ------------------------------------------------------------------ feed / biofuel sums (hand-off series) *)
+Definition mk_fb (n : nat) (km : Q) (c : conv) (swk : Q) (vs : list varlist) : fb_in :=
+  let v k := nth k vs (NotModelled n) in
+  {| f_n := n; f_km := km; f_conv := c; f_sw_kcals := swk;
+     vf_sf := v 0%nat; vf_cr := v 1%nat; vf_sw := v 2%nat; vf_cs := v 3%nat; vf_scp := v 4%nat;
+     vb_sf := v 5%nat; vb_cr := v 6%nat; vb_sw := v 7%nat; vb_cs := v 8%nat; vb_scp := v 9%nat |}.
+
+(* per: the ten per-food kcals-equivalent series (feed: cs scp seaweed crops stored; then biofuel in the same order);
+   fs / bs: feed_sum_kcals_equivalent / biofuels_sum_kcals_equivalent; fback / bback: the same converted back to
+   billion kcals each month.  0 = agree; 100+k per-food series k; 200 / 300 the sums; 400 / 500 converted back *)
+Definition check_fb (tol : Q) (x : fb_in) (per : list (list Q)) (fs bs fback bback : list Q) : nat :=
+  let c := f_conv x in
+  let ms := [use_ke x (vf_cs x) 1; use_ke x (vf_scp x) 1; use_ke x (vf_sw x) (f_sw_kcals x); use_ke x (vf_cr x) 1;
+             use_ke x (vf_sf x) 1; use_ke x (vb_cs x) 1; use_ke x (vb_scp x) 1; use_ke x (vb_sw x) (f_sw_kcals x);
+             use_ke x (vb_cr x) 1; use_ke x (vb_sf x) 1] in
+  let b1 := first_bad tol 0 1 (map (fun l => (true, l)) ms) per in
+  if negb (Nat.eqb b1 0) then (100 + b1)%nat else
+  let s := maxabs2 ms in
+  if negb (close_s_list tol s (feed_sum_ke x) fs) then 200%nat else
+  if negb (close_s_list tol s (biofuels_sum_ke x) bs) then 300%nat else
+  let sb := s * m_ke_bk c in
+  if negb (close_s_list tol sb (back_to_bk c (feed_sum_ke x)) fback) then 400%nat else
+  if negb (close_s_list tol sb (back_to_bk c (biofuels_sum_ke x)) bback) then 500%nat else 0%nat.
